@@ -424,11 +424,11 @@ def derive_cases(ck, tier):
         keep = []
         for c in out:
             if c["method"] == 4:
-                p = 0.12 if (c["dd"] and c["km"]) else 0.04
-            elif c["method"] in (1, 3, 5) and c.get("hash") in (5, 7, 9, 15, 3):
-                p = 0.15
+                p = 0.2 if (c["dd"] and c["km"]) else 0.05
+            elif c["method"] in (1, 3, 5) and c.get("hash") in (5, 7, 9, 15):
+                p = 0.25
             else:
-                p = 0.55
+                p = 0.8
             if ck.rng.random() < p:
                 keep.append(c)
         out = keep
@@ -879,8 +879,12 @@ def compare_asym(mo, oc, calls, prim, data):
 # ------------------------------------------------------------------------------------------------ key wrapping
 def run_wrap(ck, tier):
     from kmip.core import enums as E
-    for m, a in itertools.product([None] + [x.value for x in E.WrappingMethod], [None] + [x.value for x in E.BlockCipherMode]):
-        kek, data = ck.rb(ck.rng.choice([16, 24, 32])), ck.rb(ck.rng.choice([16, 24, 32, 40]))
+    grid = list(itertools.product([None] + [x.value for x in E.WrappingMethod], [None] + [x.value for x in E.BlockCipherMode],
+                                  [None], [None]))
+    # the one accepted pair, over the sizes of key-encryption key and key material
+    grid += [(1, 13, k, d) for k in (16, 24, 32) for d in (16, 24, 32, 40, 64)]
+    for m, a, kl, dl in grid:
+        kek, data = ck.rb(kl or ck.rng.choice([16, 24, 32])), ck.rb(dl or ck.rng.choice([16, 24, 32, 40]))
         with recording() as (calls, eng):
             oc, res = outcome(lambda: eng.wrap_key(data, en(E.WrappingMethod, m), en(E.BlockCipherMode, a), kek))
         if oc.startswith("internal:"):
@@ -913,11 +917,12 @@ def run_wrap_server(ck, tier):
     Eg, IE = server_engine()
     try:
         kek = ck.rb(16)
-        target = ck.rb(ck.rng.choice([16, 24, 32]))
         wuid = server_register(Eg, kek, mask=usage_mask("WRAP_KEY", "ENCRYPT"))
-        tuid = server_register(Eg, target)
-        for m, params, enc in itertools.product([x.value for x in E.WrappingMethod], ["absent", None, 13, 1, 12, 9],
-                                                [None, 1, 2]):
+        targets = {n: (server_register(Eg, t), t) for n, t in ((16, ck.rb(16)), (24, ck.rb(24)), (32, ck.rb(32)))}
+        grid = list(itertools.product([x.value for x in E.WrappingMethod], ["absent", None, 13, 1, 12, 9], [None, 1, 2], [None]))
+        grid += [(1, 13, 1, n) for n in (16, 24, 32)] * 2
+        for m, params, enc, tn in grid:
+            tuid, target = targets[tn or ck.rng.choice([16, 24, 32])]
             eki = cobjects.EncryptionKeyInformation(
                 unique_identifier=wuid,
                 cryptographic_parameters=None if params == "absent" else CP(block_cipher_mode=en(E.BlockCipherMode, params)))
@@ -947,11 +952,11 @@ def run_wrap_server(ck, tier):
                               "Get with key wrapping (method %s, mode %s, encoding %s) was answered General Failure: %s"
                               % (m, params, enc, ie["msg"]), replay)
 
-            def compare(mo, oc=oc, stored=stored):
+            def compare(mo, oc=oc, stored=stored, target=target):
                 why = Checker.same_outcome(oc, mo)
                 if why or "err" in mo:
                     return why
-                return None if stored in (None, len(target) + 8) else "wrapped key of %s bytes for %d" % (stored, len(target))
+                return None if stored == len(target) + 8 else "wrapped key of %s bytes for %d" % (stored, len(target))
             ck.add("getwrap", {"cmd": "getwrap", "method": m, "params": params != "absent",
                                "mode": None if params == "absent" else params, "encoding": enc}, {"outcome": oc}, compare)
     finally:
